@@ -242,7 +242,8 @@ func c06Result(cx *explore.Ctx, q run.Query, r run.Result) {
 			add("edit:ends-before-cursor", kind, fmt.Sprintf("candidate %q edit range %s does not reach the cursor at byte %d (non-blank text %q in between)",
 				cd.Label, fmtRange(te.Range), q.Pos.Byte, cx.Src[te.Range.End.Byte:q.Pos.Byte]))
 		}
-		if st := snippetStops(te.NewText); len(st) > 0 {
+		// (a "${" that HCL-escapes a literal "${" of the value - written "$${" - is text, not a tab stop)
+		if st := snippetStops(strings.ReplaceAll(te.NewText, "$${", "")); len(st) > 0 {
 			add("newtext:tab-stop-syntax", kind, fmt.Sprintf("candidate %q plain text %q contains tab-stop syntax", cd.Label, te.NewText))
 		}
 		if p := snippetProblem(te.Snippet); p != "" {
